@@ -11,7 +11,8 @@ type Unknown []byte
 
 // DecodeUnknown decodes an Unknown from byte array.
 func DecodeUnknown(b []byte) (Type, error) {
-	return Unknown(b), nil
+	// Copy: b may be a buffer that the caller reuses.
+	return Unknown(append([]byte(nil), b...)), nil
 }
 
 // Serialize implements the Type interface.
